@@ -6,13 +6,14 @@ PID = "C05"
 
 
 def make_work(rng, tier):
-    n = 150 if tier == "quick" else 2500
+    n = 300 if tier == "quick" else 3000
     work = []
     for i in range(n):
         tables = sqlgen.make_db(rng, max_rows=rng.choice([12, 30]))
         # expression-heavy blocks: deep expressions, few relational features
         g = sqlgen.Gen(rng, tables, {"max_depth": 4, "groups": False, "setops": False, "ctes": False,
-                                     "subqueries": rng.chance(25), "order": rng.chance(30)})
+                                     "subqueries": rng.chance(25), "order": rng.chance(30),
+                                     "sugar_chance": 25})
         runs = []
         for _ in range(4):
             q = g.query()
